@@ -57,6 +57,10 @@ class _Expr(ast.NodeTransformer):
     def visit_Call(self, n):
         self.generic_visit(n)
         f = n.func
+        # max([.. for ..]) -> max(.. for ..)   (consumers for which a list and a generator argument are interchangeable)
+        if isinstance(f, ast.Name) and f.id in ("max", "min", "sum", "any", "all", "sorted", "tuple", "set", "frozenset", "dict") and len(n.args) >= 1 \
+                and isinstance(n.args[0], ast.ListComp):
+            n.args[0] = ast.copy_location(ast.GeneratorExp(elt=n.args[0].elt, generators=n.args[0].generators), n.args[0])
         # np.all(X, ...) -> X.all(...)
         if isinstance(f, ast.Attribute) and isinstance(f.value, ast.Name) and f.value.id in ("np", "numpy", "torch") and f.attr in NP_TO_METHOD and n.args \
                 and not any(isinstance(a, ast.Starred) for a in n.args) and not isinstance(n.args[0], (ast.List, ast.ListComp, ast.GeneratorExp, ast.Tuple, ast.Dict, ast.Constant)):
